@@ -186,14 +186,19 @@ Fixpoint srt_trace (v : srt_vars) (items : list srt_view) : list bool :=
 Definition srt_calls (oracle : list sub_result) (content : text) : list bool :=
   srt_trace (srt_init true oracle) (map srt_classify (readlines content)).
 
-(* ---- the cursor of _TextParser: self.parent walks the tree built so far --------------------------------------- *)
+(* ---- the cursor of _TextParser: self.parent walks the tree built so far; self.open_tags holds the names of the tags
+   that opened the spans between the paragraph and self.parent (repository commit 818e997) ----------------------- *)
 Inductive srt_cursor := CSpan (depth : nat) (* depth+1 spans below the paragraph *) | CP | CDiv | CBody | CNone.
 
 Inductive font_color := ColorAbsent | ColorNoValue | ColorBad | ColorGood.
+(* tag names are represented by integers: the harness numbers the distinct (lower-cased, as html.parser delivers them) names
+   of one cue; the only operation of the code on them that matters here is `self.open_tags[-1] != tag` *)
 Inductive srt_event :=
-  | EvStart (font : option font_color)      (* None: any tag but <font>;  Some c: <font>, c describes its color attribute *)
-  | EvEnd
+  | EvStart (tag : Z) (font : option font_color)   (* None: any tag but <font>;  Some c: <font>, c describes its color attribute *)
+  | EvEnd (tag : Z)
   | EvData.
+
+Record srt_cur := { sc_parent : srt_cursor; sc_open : list Z (* newest first *) }.
 
 Definition up (attached : bool) (c : srt_cursor) : srt_cursor + outcome :=      (* self.parent = self.parent.parent() *)
   match c with
@@ -213,41 +218,45 @@ Definition accepts_inline (c : srt_cursor) : option outcome :=
   | CNone => Some (Internal AttributeErr)                                        (* self.parent.get_doc() *)
   end.
 
-Definition srt_cursor_step (attached : bool) (c : srt_cursor) (e : srt_event) : srt_cursor + outcome :=
+Definition srt_cursor_step (attached : bool) (c : srt_cur) (e : srt_event) : srt_cur + outcome :=
   match e with
-  | EvStart f =>
-      match accepts_inline c with
+  | EvStart tag f =>
+      match accepts_inline (sc_parent c) with
       | Some o => inr o
       | None =>
-          let c' := match c with CSpan d => CSpan (S d) | _ => CSpan O end in
+          (* self.parent = span; self.open_tags.append(tag) *)
+          let c' := {| sc_parent := match sc_parent c with CSpan d => CSpan (S d) | _ => CSpan O end; sc_open := tag :: sc_open c |} in
           match f with
           | Some ColorNoValue => inr (Internal TypeErr)                          (* parse_color(None): str.lower(None) *)
           | Some ColorBad => inr (FormatError ValueErr)                          (* parse_color raises ValueError("Bad Syntax") *)
           | _ => inl c'
           end
       end
-  | EvEnd => up attached c
-  | EvData => match accepts_inline c with Some o => inr o | None => inl c end
+  | EvEnd tag =>
+      (* if len(self.open_tags) == 0 or self.open_tags[-1] != tag: warning; return *)
+      match sc_open c with
+      | [] => inl c
+      | top :: rest =>
+          if negb (top =? tag) then inl c
+          else match up attached (sc_parent c) with                              (* self.open_tags.pop(); self.parent = self.parent.parent() *)
+               | inr o => inr o
+               | inl p => inl {| sc_parent := p; sc_open := rest |}
+               end
+      end
+  | EvData => match accepts_inline (sc_parent c) with Some o => inr o | None => inl c end
   end.
 
-Fixpoint srt_cursor_loop (attached : bool) (c : srt_cursor) (es : list srt_event) : outcome :=
+Fixpoint srt_cursor_loop (attached : bool) (c : srt_cur) (es : list srt_event) : outcome :=
   match es with
   | [] => OkDoc
   | e :: rest => match srt_cursor_step attached c e with inr o => o | inl c' => srt_cursor_loop attached c' rest end
   end.
-Definition srt_cursor_run (attached : bool) (es : list srt_event) : outcome := srt_cursor_loop attached CP es.
+Definition srt_cursor_run (attached : bool) (es : list srt_event) : outcome :=
+  srt_cursor_loop attached {| sc_parent := CP; sc_open := [] |} es.
 
-(* executable trigger of finding srt-stray-end-tag: some prefix closes more tags than it opened *)
-Fixpoint stray_end_from (open : nat) (es : list srt_event) : bool :=
-  match es with
-  | [] => false
-  | EvStart _ :: r => stray_end_from (S open) r
-  | EvEnd :: r => match open with O => true | S k => stray_end_from k r end
-  | EvData :: r => stray_end_from open r
-  end.
-Definition srt_stray_end (es : list srt_event) : bool := stray_end_from O es.
+(* executable trigger of finding srt-font-color-without-value *)
 Definition srt_font_novalue (es : list srt_event) : bool :=
-  existsb (fun e => match e with EvStart (Some ColorNoValue) => true | _ => false end) es.
+  existsb (fun e => match e with EvStart _ (Some ColorNoValue) => true | _ => false end) es.
 
 (* ------------------------------------------------------------------------------------------------ 2. WebVTT reader *)
 (* _VTT_TS_RE.fullmatch:  (D{2,}:)?DD:DD.DDD *)
@@ -462,18 +471,25 @@ Definition vtt_cursor_step (c : vcur) (e : vtt_event) : vcur + outcome :=
           end
       end
   | TStartRt =>
-      match c_path c with
-      | [] => inr (Internal AttributeErr)                               (* model.Rt(self.parent.get_doc()) *)
-      | _ => match c_ruby c with
-             | None => inr (Internal AttributeErr)                      (* self.ruby_rtc.push_child on None *)
-             | Some rp => inl {| c_path := KRt :: rp; c_ruby := c_ruby c |}
-             end
+      (* `if tag.startswith("rt") and self.ruby_rtc is not None`; otherwise handled like any other tag (commit 15db449) *)
+      match c_ruby c with
+      | Some rp =>
+          match c_path c with
+          | [] => inr (Internal AttributeErr)                           (* model.Rt(self.parent.get_doc()) *)
+          | _ => inl {| c_path := KRt :: rp; c_ruby := c_ruby c |}
+          end
+      | None =>
+          match push_result (c_path c) ChSpan with
+          | Some o => inr o
+          | None => inl {| c_path := KSpan :: c_path c; c_ruby := c_ruby c |}
+          end
       end
-  | TStartSpan | TTimestamp =>
+  | TStartSpan =>
       match push_result (c_path c) ChSpan with
       | Some o => inr o
       | None => inl {| c_path := KSpan :: c_path c; c_ruby := c_ruby c |}
       end
+  | TTimestamp => inl c          (* _handle_ts only records self.begin (commit 8eaaab8); self.paragraph is the cue's P, never None *)
   | TEnd =>
       match c_path c with
       | [] => inr (Internal AttributeErr)                               (* None.parent() *)
@@ -499,12 +515,13 @@ Fixpoint vtt_stray_from (open : nat) (es : list vtt_event) : bool :=
   match es with
   | [] => false
   | TEnd :: r => match open with O => true | S k => vtt_stray_from k r end
-  | TData _ :: r => vtt_stray_from open r
+  | TData _ :: r | TTimestamp :: r => vtt_stray_from open r
   | _ :: r => vtt_stray_from (S open) r
   end.
 Definition vtt_stray_end (es : list vtt_event) : bool := vtt_stray_from O es.
+(* <rt> without an open <ruby> is an ordinary tag: only <ruby> itself leads to the structures of finding vtt-ruby-structure *)
 Definition vtt_has_ruby (es : list vtt_event) : bool :=
-  existsb (fun e => match e with TStartRuby | TStartRt => true | _ => false end) es.
+  existsb (fun e => match e with TStartRuby => true | _ => false end) es.
 
 (* ------------------------------------------------------------------------------------------------ 3. SCC reader *)
 Definition ascii_hex (c : Z) : bool :=
@@ -707,19 +724,20 @@ Definition stl_init (cfg : stl_cfg) (gsi : list Z) (oracle : list sub_result) : 
 Definition q_lt (a : Z * Z) (c : Z * Z) : bool := fst a * snd c <? fst c * snd a.
 
 Definition with_block_done (v : stl_vars) (last_sn : option Z) (have_p : bool) (oracle : list sub_result) : stl_vars + outcome :=
-  (* back in stl/reader.py: progress_callback(i / m.get_tti_count()) *)
-  if t_count v =? 0 then inr (Internal ZeroDivisionErr)
-  else inl {| t_fps := t_fps v; t_count := t_count v; t_offset := t_offset v; t_rows := t_rows v; t_teletext := t_teletext v;
+  (* back in stl/reader.py: `if m.get_tti_count() > 0: progress_callback(i / m.get_tti_count())` (commit c08d0ef) *)
+  (* the division is guarded by the test: nothing can fail here any more *)
+  inl {| t_fps := t_fps v; t_count := t_count v; t_offset := t_offset v; t_rows := t_rows v; t_teletext := t_teletext v;
               t_last_sn := last_sn; t_have_p := have_p; t_index := t_index v + 1; t_oracle := oracle |}.
 
 (* the block reaches the paragraph code: it is a complete block (EBN = 0xFF; user data 0xF0..0xFE and extension blocks return
-   early) whose times pass `begin_time < 0` and `end_time < begin_time` *)
+   early) that is not a translator's comment (CF = 1 returns early, commit 2e8a66f) and whose times pass `begin_time < 0` and
+   `end_time < begin_time` *)
 Definition block_tin (fps : Z * Z) (b : list Z) : Z * Z :=
   (tc_frames fps (nth 5 b 0) (nth 6 b 0) (nth 7 b 0) (nth 8 b 0) * snd fps, fst fps).
 Definition block_tout (fps : Z * Z) (b : list Z) : Z * Z :=
   (tc_frames fps (nth 9 b 0) (nth 10 b 0) (nth 11 b 0) (nth 12 b 0) * snd fps, fst fps).
 Definition block_effective (fps offset : Z * Z) (b : list Z) : bool :=
-  (nth 3 b 0 =? 255) && negb (q_lt (block_tin fps b) offset) && negb (q_lt (block_tout fps b) (block_tin fps b)).
+  (nth 3 b 0 =? 255) && negb (nth 15 b 0 =? 1) && negb (q_lt (block_tin fps b) offset) && negb (q_lt (block_tout fps b) (block_tin fps b)).
 Definition cs_starts (cs : Z) : bool := (cs =? 0) || (cs =? 1).
 
 (* process_tti_block on one chunk returned by read(128) *)
@@ -729,10 +747,10 @@ Definition stl_block (v : stl_vars) (b : list Z) : stl_vars + outcome :=
   else
     let sn := nth 1 b 0 + 256 * nth 2 b 0 in
     let cs := nth 4 b 0 in
-    let vp := nth 13 b 0 in
-    (* `tti.SN != self.last_sn` *)
+    let vp := Z.max (nth 13 b 0) 1 in                                (* vp = max(tti.VP, 1), commit 4cdd6b5 *)
+    (* `(tti.SN != self.last_sn and tti.CS in (0x00, 0x01)) or self.cur_p_element is None` (commit 8f4f9e5) *)
     let same := match t_last_sn v with Some l => l =? sn | None => false end in
-    let fresh := negb same && cs_starts cs in
+    let fresh := (negb same && cs_starts cs) || negb (t_have_p v) in
     let geometry : option outcome :=
       if fresh then
         match t_rows v with
@@ -777,27 +795,11 @@ Definition stl_run (cfg : stl_cfg) (oracle : list sub_result) (file : list Z) : 
   end.
 
 
-(* executable triggers of the recorded STL findings, on the GSI block [gsi = firstn 1024 file] and the TTI blocks *)
+(* executable trigger of the recorded STL finding, on the GSI block [gsi = firstn 1024 file] *)
 (* stl-zero-row-count: open subtitles whose row count (GSI MNR under max_row_count = "MNR", or the configured integer) is 0 *)
 Definition trig_zero_rows (cfg : stl_cfg) (gsi : list Z) : bool :=
   match cfg_rows cfg with
   | RowsMNR => negb (gsi_teletext gsi) && match bytes_int (slice 253 2 gsi) with None => false | Some n => n =? 0 end
   | RowsInt n => negb (gsi_teletext gsi) && (n =? 0)
   | RowsNone => false
-  end.
-Definition trig_zero_count (gsi : list Z) : bool :=
-  match bytes_int (slice 238 5 gsi) with Some n => n =? 0 | None => false end.
-(* stl-cumulative-block-first: the first block that reaches the paragraph code has a cumulative status other than 0 / 1 *)
-Fixpoint first_effective_cs (fps offset : Z * Z) (bs : list (list Z)) : option Z :=
-  match bs with
-  | [] => None
-  | b :: rest => if block_effective fps offset b then Some (nth 4 b 0) else first_effective_cs fps offset rest
-  end.
-Definition trig_cum_first (cfg : stl_cfg) (file : list Z) : bool :=
-  match stl_header cfg (firstn 1024 file) with
-  | inr _ => false
-  | inl h => match first_effective_cs (h_fps h) (h_offset h) (stl_blocks file) with
-             | Some cs => negb (cs_starts cs)
-             | None => false
-             end
   end.
